@@ -16,7 +16,12 @@ def _f(name, *sorts):
 
 
 D_size = _f('size', ArrS, IntS, IntS, IntS)
-D_code = _f('code', ArrS, IntS, IntS, IntS)
+_leb_u = z3.Function('leb.u.val', ArrS, IntS, IntS)
+
+
+def D_code(arr, cuo, off):
+    """abbreviation code of the entry at off: the ULEB128 number there (7.5.2), as DIE._parse_DIE is proved to read it"""
+    return _leb_u(arr, off)
 D_kids = _f('has_children', ArrS, IntS, IntS, BoolS)
 D_tag_isname = _f('tag.isname', ArrS, IntS, IntS, BoolS)
 D_tag_name = _f('tag.name', ArrS, IntS, IntS, StrS)
